@@ -416,9 +416,9 @@ Proof. exact gen_sphere_identities. Qed.
    sphere crosses at most one face") or two opposite caps.
 
    PARTIAL because (i) edges and corners (two or three mutually adjacent faces
-   within reach: sphere_edge_area, sphere_corner_area) are not derived -- for
-   those only the consistency identities above and the numerical reference of
-   the correspondence run; (ii) the area is the one measured about the axis of
+   within reach: sphere_edge_area, sphere_corner_area) are not derived HERE
+   [they are further down: C19_area_3d_bounded_is_area covers every regime];
+   (ii) the area is the one measured about the axis of
    the crossed faces: r dphi dt IS the Euclidean surface element of that
    parametrisation (C19_axial_area_element below), but that the resulting
    surface integral does not depend on the parametrisation / axis (rotation
@@ -515,9 +515,8 @@ From TP Require Import Model.StaticGeom4 Proofs.StaticLune Proofs.StaticGeom4.
    -- centre on a face or on an edge -- included).
 
    PARTIAL only in that (i) the corner regime (three mutually adjacent faces
-   within reach, sphere_corner_area) is not evaluated in closed form -- for it
-   there is C19_area_3d_slice_integral_partial below and the numerical reference
-   of the correspondence run; (ii) as for C19_area_3d_single_cap_partial, the
+   within reach, sphere_corner_area) is not covered by THIS theorem [it is
+   covered by C19_area_3d_bounded_is_area further down]; (ii) as for C19_area_3d_single_cap_partial, the
    area is the one measured about ax (r dphi dt is the Euclidean surface
    element, C19_axial_area_element); independence of the axis is not proved. *)
 Theorem C19_area_3d_edges_partial : forall ax r cx cy cz x0 x1 y0 y1 z0 z1,
@@ -584,9 +583,10 @@ Print Assumptions C19_cap_and_edge_integrals.
    the sphere inside the box is the integral over the height t of r times
    slice_measure_ax = (inside the slab of the two faces perpendicular to ax) the
    2-D edge correction arclen_2d of the slice circle divided by its radius.
-   Missing for the corner regime: the closed-form evaluation of this integral
-   when the slab truncates it (-lo or hi inside (-r, r)) and its identification
-   with the code's 4 PI r^2 - caps + edges - corners (sphere_corner_area). *)
+   The closed-form evaluation of this integral when the slab truncates it (-lo
+   or hi inside (-r, r)) and its identification with the code's
+   4 PI r^2 - caps + edges - corners (sphere_corner_area) are
+   C19_slice_integral_closed_form / C19_area_3d_bounded_is_area further down. *)
 Theorem C19_area_3d_slice_integral_partial : forall ax r cx cy cz x0 x1 y0 y1 z0 z1 a,
   0 < r -> (x0 <= cx <= x1 /\ y0 <= cy <= y1 /\ z0 <= cz <= z1) ->
   (has_axial_area ax r
@@ -625,9 +625,9 @@ Proof. exact area_3d_two_adjacent_examples. Qed.
    reach with pairwise disjoint caps, or with only one pair overlapping: then
    area_3d_bounded = 4 PI r^2 - up to six caps + up to four edge terms is the
    area about ax of the part of the sphere inside the box.
-   What remains unproved (numerical reference only): edge terms of two
-   different directions switched on together, and the corner term
-   (sphere_corner_area). *)
+   Edge terms of two different directions switched on together and the corner
+   term (sphere_corner_area) are not covered by this theorem; they are by
+   C19_area_3d_bounded_is_area further down. *)
 Theorem C19_area_3d_parallel_edges_partial : forall ax r cx cy cz x0 x1 y0 y1 z0 z1,
   0 < r -> (x0 <= cx <= x1 /\ y0 <= cy <= y1 /\ z0 <= cz <= z1) ->
   edges_parallel_only ax r (cx - x0) (x1 - cx) (cy - y0) (y1 - cy) (cz - z0) (z1 - cz) ->
@@ -654,3 +654,128 @@ Example C19_area_3d_parallel_edges_example :
   edges_parallel_only AZ 2 (9 - 0) (10 - 9) (9 - 0) (10 - 9) (41 / 5 - 0) (10 - 41 / 5) /\
   10 - 41 / 5 < 2 /\ 10 - 9 < 2 /\ (10 - 9) * (10 - 9) + (10 - 9) * (10 - 9) < 2 * 2.
 Proof. exact parallel_edges_example. Qed.
+
+(* ================================================================== *)
+(* 3-D edge correction, THE CORNER TERM and the general statement       *)
+(* Model/StaticGeom5.v, Proofs/StaticCorner.v                           *)
+(* ================================================================== *)
+From TP Require Import Model.StaticGeom5 Proofs.StaticCorner.
+
+(* HEADLINE (3-D), about the code as it is now.  For EVERY r > 0, EVERY centre
+   in the closed box and every coordinate axis ax: with a the area, about ax, of
+   the part of the sphere of radius r inside the box (it exists; it is unique by
+   C19_axial_area_unique and the same for the three axes by
+   C19_area_3d_axis_independent below), the generated area_3d_bounded returns
+   NaN when a < 10^-7 r^2 and a otherwise.  No restriction on which caps, edge
+   terms (of one, two or three directions) and corner terms are switched on;
+   centre on a face, on an edge or in a corner of the box included; r may exceed
+   the box.
+
+   Proof: the area about ax is the integral over the height t of r times the
+   slice measure (C19_area_3d_slice_integral_partial); inside the slab of the
+   two faces perpendicular to ax the slice measure is 2 PI - four cap widths +
+   four corner widths of the slice circle; each of these nine pieces is
+   integrated over the slab as  whole - lower tail - upper tail  with
+   whole = the 3-D cap / edge term (C19_cap_and_edge_integrals) and the tails
+   C19_cap_and_edge_tails below: the tail of a cap width beyond a perpendicular
+   face is the EDGE term, the tail of a corner width is the CORNER term
+   sphere_corner_area (same antiderivative Gh as for the lune, evaluated at the
+   truncation height; atan u + atan (1/u) = PI/2 is the only identity needed);
+   the 27 terms are the code's 4 PI r^2 - 6 caps + 12 edges - 8 corners
+   (C19_area_3d_grouped_by_axis, no hypothesis).
+
+   What is NOT proved: that the axial area r dphi dt coincides with the surface
+   area defined by some other means for arbitrary sets (r dphi dt IS the
+   Euclidean surface element, C19_axial_area_element; for the sets concerned
+   here the three axes give the same value). *)
+Theorem C19_area_3d_bounded_is_area : forall ax r cx cy cz x0 x1 y0 y1 z0 z1,
+  0 < r -> (x0 <= cx <= x1 /\ y0 <= cy <= y1 /\ z0 <= cz <= z1) ->
+  exists a,
+    has_axial_area ax r
+      (fun p => x0 <= cx + fst (fst p) <= x1 /\ y0 <= cy + snd (fst p) <= y1 /\ z0 <= cz + snd p <= z1) a /\
+    (a < / (10 ^ 7) * r ^ 2 -> py_area_3d_bounded r cx cy cz x0 x1 y0 y1 z0 z1 = None) /\
+    (/ (10 ^ 7) * r ^ 2 <= a -> py_area_3d_bounded r cx cy cz x0 x1 y0 y1 z0 z1 = Some a).
+Proof. exact gen_area_3d_bounded_is_area. Qed.
+Print Assumptions C19_area_3d_bounded_is_area.
+
+(* the same about the hand-written reading area_3d_bounded (before the NaN mask) *)
+Theorem C19_area_3d_model_is_area : forall ax r cx cy cz x0 x1 y0 y1 z0 z1,
+  0 < r -> (x0 <= cx <= x1 /\ y0 <= cy <= y1 /\ z0 <= cz <= z1) ->
+  has_axial_area ax r
+    (fun p => x0 <= cx + fst (fst p) <= x1 /\ y0 <= cy + snd (fst p) <= y1 /\ z0 <= cz + snd p <= z1)
+    (area_3d_bounded r cx cy cz x0 x1 y0 y1 z0 z1).
+Proof. exact area_3d_bounded_is_area. Qed.
+
+(* the area of (sphere /\ box) does not depend on the axis about which it is measured *)
+Theorem C19_area_3d_axis_independent : forall ax ax' r cx cy cz x0 x1 y0 y1 z0 z1 a a',
+  0 < r -> (x0 <= cx <= x1 /\ y0 <= cy <= y1 /\ z0 <= cz <= z1) ->
+  has_axial_area ax r
+    (fun p => x0 <= cx + fst (fst p) <= x1 /\ y0 <= cy + snd (fst p) <= y1 /\ z0 <= cz + snd p <= z1) a ->
+  has_axial_area ax' r
+    (fun p => x0 <= cx + fst (fst p) <= x1 /\ y0 <= cy + snd (fst p) <= y1 /\ z0 <= cz + snd p <= z1) a' ->
+  a = a'.
+Proof. exact box_area_axis_independent. Qed.
+Print Assumptions C19_area_3d_axis_independent.
+
+(* The tails.  g, g1, g2 = distances of faces parallel to the slicing axis,
+   h = distance of a face perpendicular to it; rho r t = sqrt(r^2 - t^2); all
+   terms with the code's masks; all distances >= 0 (zero included). *)
+Theorem C19_cap_and_edge_tails : forall r,
+  0 < r ->
+  (forall g h, 0 <= g -> 0 <= h ->
+     is_RInt (fun t => r * (cap_term g (rho r t) / rho r t)) (Rmin h r) r (sedge_term g h r)) /\
+  (forall g1 g2 h, 0 <= g1 -> 0 <= g2 -> 0 <= h ->
+     is_RInt (fun t => r * (corner_term g1 g2 (rho r t) / rho r t)) (Rmin h r) r (scorner_term g1 g2 h r)).
+Proof. intros r Hr. split; [intros; apply cap_tail|intros; apply corner_tail]; assumption. Qed.
+Print Assumptions C19_cap_and_edge_tails.
+
+(* The slice integral in closed form, every regime: lo, hi = distances of the
+   faces perpendicular to the axis, hl, hr, hb, ht = of the four others.
+   area_3d_sliced (Model/StaticGeom5.v) =
+     4 PI r^2 - cap lo - cap hi
+     - SUM_{g in hl,hr,hb,ht} (cap g - edge(g, lo) - edge(g, hi))
+     + SUM_{(g1,g2) in (hl,hb),(hl,ht),(hr,hb),(hr,ht)} (edge(g1,g2) - corner(g1,g2,lo) - corner(g1,g2,hi)) *)
+Theorem C19_slice_integral_closed_form : forall r lo hi hl hr hb ht,
+  0 < r -> 0 <= lo -> 0 <= hi -> 0 <= hl -> 0 <= hr -> 0 <= hb -> 0 <= ht ->
+  is_RInt (fun t => r * slice_measure r lo hi hl hr hb ht t) (- r) r (area_3d_sliced r lo hi hl hr hb ht).
+Proof. exact slice_integral_closed_form. Qed.
+
+(* ... which is the code's expression, for each axis, without any hypothesis *)
+Theorem C19_area_3d_grouped_by_axis : forall ax r xm xp ym yp zm zp,
+  area_3d r xm xp ym yp zm zp =
+  let '(hl, hr, hb, ht) := lateral ax xm xp ym yp zm zp in
+  area_3d_sliced r (fst (along ax xm xp ym yp zm zp)) (snd (along ax xm xp ym yp zm zp)) hl hr hb ht.
+Proof. exact area_3d_is_sliced. Qed.
+
+(* The corner term itself: sphere_corner_area dx dy dz r IS the area (about the
+   box edge along z) of the spherical triangle { p on the sphere | dx <= p_x,
+   dy <= p_y, dz <= p_z } cut off by three mutually adjacent faces whose common
+   corner lies inside the sphere (faces through the centre included). *)
+Theorem C19_sphere_corner_area_is_triangle : forall dx dy dz r,
+  0 < r -> 0 <= dx -> 0 <= dy -> 0 <= dz -> dx * dx + dy * dy + dz * dz < r * r ->
+  has_axial_area AZ r (fun p => dx <= fst (fst p) /\ dy <= snd (fst p) /\ dz <= snd p)
+                 (sphere_corner_area dx dy dz r).
+Proof. exact corner_area_is_triangle. Qed.
+Print Assumptions C19_sphere_corner_area_is_triangle.
+
+(* three mutually adjacent faces within reach, the corner inside the sphere, the
+   three other faces out of reach: full inclusion-exclusion; by
+   C19_area_3d_model_is_area it is the true area *)
+Theorem C19_area_3d_three_adjacent : forall r xm dx ym dy zm dz,
+  0 < r -> 0 <= dx -> 0 <= dy -> 0 <= dz -> dx * dx + dy * dy + dz * dz < r * r ->
+  r <= xm -> r <= ym -> r <= zm ->
+  area_3d r xm dx ym dy zm dz
+  = 4 * PI * (r * r) - sphere_cap_area dx r - sphere_cap_area dy r - sphere_cap_area dz r
+    + sphere_edge_area dx dy r + sphere_edge_area dx dz r + sphere_edge_area dy dz r
+    - sphere_corner_area dx dy dz r.
+Proof. exact area_3d_three_adjacent. Qed.
+
+(* non-vacuity: box [0,10]^3, r = 2, centre (9, 9, 9): three faces at distance
+   1, the box corner inside the sphere: three edge terms of three different
+   directions and the corner term are on. *)
+Example C19_area_3d_corner_example :
+  (0 <= 9 <= 10 /\ 0 <= 9 <= 10 /\ 0 <= 9 <= 10) /\
+  (10 - 9) * (10 - 9) + (10 - 9) * (10 - 9) + (10 - 9) * (10 - 9) < 2 * 2 /\
+  area_3d_bounded 2 9 9 9 0 10 0 10 0 10
+  = 4 * PI * (2 * 2) - 3 * sphere_cap_area 1 2 + 3 * sphere_edge_area 1 1 2 - sphere_corner_area 1 1 1 2.
+Proof. exact area_3d_corner_example. Qed.
